@@ -190,6 +190,7 @@ impl Prop for C09Peer {
             lit: rng.below(5) as u8,
             flag: rng.chance(1, 3),
             whole: false,
+            early: 0,
         };
         let size = rng.weighted(&[3, 5, 2]);
         let d = gen::valid(rng, &cfg, size);
